@@ -307,6 +307,8 @@ def struct_case(mir_text, script_lines, link, label, how):
         struct_stats["with_labels"] += haslab
         struct_stats["with_lrefs"] += haslr
         struct_stats["with_switch"] += hassw
+        hasglob = any(l.startswith("F ") and re.search(r" ng=[1-9]", l) for l in d0)
+        struct_stats["with_hard_reg_globals"] = struct_stats.get("with_hard_reg_globals", 0) + int(bool(hasglob))
         struct_stats["edits"] += len(scr)
         for e_ in scr:
             k = " ".join(e_.split(" ")[1:2] + ([e_.split(" ")[3]] if e_.split(" ")[1] == "ins" else []))
@@ -566,6 +568,8 @@ if QUICK:
     pool = list(csrc)
     for _ in range(min(150, len(pool))):
         pick.append(pool.pop(rng.below(len(pool))))
+    # register-asm variables become `global` (hard-register) variables: always present
+    pick += [c for c in csrc if os.path.basename(c) == "jcall.c" and c not in pick]
     csrc = sorted(pick)
 
 
